@@ -647,7 +647,9 @@ func diffClass(d string) string {
 
 func diffEvent(got, want evFields) []string {
 	var d []string
-	add := func(f string, g, w interface{}) { d = append(d, fmt.Sprintf("%s %q want %q", f, fmt.Sprint(g), fmt.Sprint(w))) }
+	add := func(f string, g, w interface{}) {
+		d = append(d, fmt.Sprintf("%s %q want %q", f, fmt.Sprint(g), fmt.Sprint(w)))
+	}
 	if got.Title != want.Title {
 		add("title", got.Title, want.Title)
 	}
